@@ -67,6 +67,20 @@ def main(argv):
             fid_info = fid_fn(tier, seed)
         except Exception as e:
             fid_info = {'ok': False, 'error': '%s' % e, 'trace': traceback.format_exc()[-1500:]}
+    # ---- must-fail canary (vacuity guard; thorough tier, full runs on /repo only) ----
+    canary_info = None
+    if tier == 'thorough' and not only and os.path.realpath(REPO) == '/repo' and not os.environ.get('GM2V_NO_CANARY'):
+        from gm2v import canary
+        try:
+            ok, canary_info = canary.run_canary(pid)
+            if ok is None:
+                canary_info = {'defined': False}
+            elif not ok:
+                canary_info['ok'] = False
+            else:
+                canary_info['ok'] = True
+        except Exception as e:
+            canary_info = {'defined': True, 'ok': False, 'error': '%s' % e}
     # ---- collect ----
     goals = []
     rules = {}
@@ -84,7 +98,8 @@ def main(argv):
     known_ids = {k['obligation'] for k in known}
     violations = []
     known_hit = []
-    os.makedirs(os.path.join(ROOT, 'replay'), exist_ok=True)
+    replay_dir = os.environ.get('GM2V_REPLAY_DIR', os.path.join(ROOT, 'replay'))
+    os.makedirs(replay_dir, exist_ok=True)
     obmap = {o.oid: o for o in obs}
     replays_done = {}
     for g in by[OB.FAILED]:
@@ -93,7 +108,7 @@ def main(argv):
             continue
         # replay on the real code
         oid = next((o for o in obmap if g['id'] == o or g['id'].startswith(o + '.')), None)
-        replay_path = os.path.join(ROOT, 'replay', g['id'].replace('/', '_') + '.txt')
+        replay_path = os.path.join(replay_dir, g['id'].replace('/', '_') + '.txt')
         reproduced, detail = None, 'no replay oracle for this obligation'
         o = obmap.get(oid)
         replays_done[oid] = replays_done.get(oid, 0) + 1
@@ -130,6 +145,10 @@ def main(argv):
             status = 2
         if fid_info is not None and not fid_info.get('ok', False):
             status = 2
+        if canary_info is not None and canary_info.get('defined') and not canary_info.get('ok'):
+            status = 2
+    if canary_info is not None and canary_info.get('defined'):
+        print('CANARY %s: %s' % ('fired (the check is not vacuous)' if canary_info.get('ok') else 'DID NOT FIRE (machinery fault, not a violation)', json.dumps(canary_info)[:400]))
     for g in by[OB.ERROR]:
         print('ERROR obligation=%s: %s' % (g['id'], g['detail'][:600]))
     for g in by[OB.UNDECIDED]:
@@ -161,6 +180,7 @@ def main(argv):
             'by_backend': {b: len([g for g in goals if g['backend'] == b]) for b in sorted({g['backend'] for g in goals})},
             'extraction_rule_counts': rules,
             'fidelity_guard': fid_info,
+            'must_fail_canary': canary_info,
             'samples': samples,
             'all_goals': [dict(id=g['id'], status=g['status'], solver=g['solver'], seconds=g['seconds'], kind=g['kind']) for g in goals],
             'undecided': [g['id'] for g in by[OB.UNDECIDED]],
